@@ -22,8 +22,9 @@ META = {
                   "per-archive temp dir reused. Every such transition is executed on the real chain (zero drift required for the fast path); "
                   "quick: all 3.6k archives x patterns of the small name universe plus a seeded sample of the medium one; thorough: all 30k of small+medium plus a 60k sample of the two large enumerations.",
     "level_note": "Narrower readings: seeks only to targets inside [0,len] (seeking beyond the end is clamped by design); "
-                  "archives in which two members denote the same raw name or the same target path are outside the driver's "
-                  "domain (the zip writer refuses duplicates; which alias survives is not fixed by the statement); file "
+                  "archives with two members of the same raw name are outside the driver's domain (the zip writer refuses "
+                  "duplicates); members denoting the same target path (aliases) are driven: the file must hold the bytes of exactly "
+                  "one requested alias (which one is not fixed by the statement); file "
                   "members end in a plain file name; symlink members and non-zip (libarchive) formats are not driven. "
                   "Glob semantics is specified in ExtractDefs.tla for five pattern classes only. Known findings: "
                   "KF_C20_EmptyVolume (#13), KF_C20_ReportedPreexisting (#15). Trusted: TLC, the driver's projection "
@@ -156,6 +157,19 @@ def binding_selftest(ctx, scases, sv, xcases, xv, kf):
         muts.append(("unchanged history (control: must be accepted)", copy.deepcopy(hb)))
     elif not ctx.violations:
         raise c.ToolError("binding self-test extract: no accepted 2-request history that adds files to a reused temp dir")
+    # aliasing members of different length: the surviving file must be exactly one member's bytes
+    al = next((k for k in xcases if k not in xv.violations and k not in xv.known and xcases[k][0]["hdr"].get("aliased")
+               and xcases[k][-1]["ev"] == "result" and xcases[k][-1]["tree"]
+               and len({m["len"] for m in xcases[k][0]["hdr"]["members"] if not m["dir"]}) > 1), None)
+    if al is not None:
+        t = copy.deepcopy(xcases[al])
+        t[-1]["tree"][0]["hash"] ^= 1          # same length as a member, other bytes (= new head + old tail)
+        for r in t[-1]["reported"]:
+            if r["rel"] == t[-1]["tree"][0]["rel"]:
+                r["hash"] ^= 1
+        muts.append(("aliasing members: file is a mixture of two members", t))
+    elif not ctx.violations:
+        raise c.ToolError("binding self-test extract: no accepted archive with aliasing member names")
     out["extract"] = _run_selftest(ctx, "extract", "ExtractTrace.tla", muts, {"KF_C20_ReportedPreexisting": kf["KF_C20_ReportedPreexisting"]})
     return out
 
@@ -229,8 +243,11 @@ def check(ctx):
     # sample of the medium enumeration (quick) / of thorough2 + thorough3 (thorough, 60k of ~180k) is replayed
     # Extract_hist*: HISTORIES of 2 (quick) / 3 (thorough) requests against the same archive with the temp dir reused
     # (overlapping, nested, identical, disjoint patterns): every request must report exactly its Expected set
-    full_cfgs = ["Extract_quick.cfg", "Extract_hist2.cfg"] if quick else ["Extract_quick.cfg", "Extract_hist2.cfg", "Extract_medium.cfg", "Extract_hist3.cfg"]
-    samp_cfgs = ["Extract_medium.cfg"] if quick else ["Extract_thorough2.cfg", "Extract_thorough3.cfg", "Extract_hist2m3.cfg"]
+    # Extract_alias*: member names that denote the SAME target path (a.dlt, ./a.dlt, d/../a.dlt) with different content lengths in
+    # both orders; unfiltered extractions of archive versions 1, 2 into ONE directory, optionally pre-filled with longer files
+    full_cfgs = (["Extract_quick.cfg", "Extract_hist2.cfg", "Extract_alias.cfg"] if quick
+                 else ["Extract_quick.cfg", "Extract_hist2.cfg", "Extract_alias.cfg", "Extract_medium.cfg", "Extract_hist3.cfg"])
+    samp_cfgs = ["Extract_medium.cfg"] if quick else ["Extract_thorough2.cfg", "Extract_thorough3.cfg", "Extract_hist2m3.cfg", "Extract_alias3.cfg"]
     seen = set()
 
     def enum(cfgs):
@@ -238,7 +255,7 @@ def check(ctx):
         for cfg in cfgs:
             r = c.tlc_must_pass(ctx, "extract-" + cfg[:-4], "mc/MCExtract.tla", cfg, timeout=3000)
             for s in c.scn_lines(r):
-                key = json.dumps([s["members"], s["globs"]], sort_keys=True)
+                key = json.dumps([s["members"], s["globs"], s.get("junk")], sort_keys=True)
                 if key not in seen:
                     seen.add(key)
                     out.append(s)
@@ -316,7 +333,8 @@ def check(ctx):
               "file_backed", "scn_with_empty_volume"]
     need_x = ["member_absolute", "member_dotdot", "member_dir", "member_empty", "member_target_preexists", "multi_volume_archive",
               "extracted_something", "glob_all", "glob_ext", "glob_dirp", "glob_exact", "glob_nofilter",
-              "history_of_2_requests", "later_request_found_files_and_added_more", "later_request_served_from_temp_dir"]
+              "history_of_2_requests", "later_request_found_files_and_added_more", "later_request_served_from_temp_dir",
+              "archive_with_aliasing_names", "target_dir_prefilled_with_longer_files", "second_archive_version_into_same_dir"]
     if not quick:
         need_x.append("history_of_3_requests")
     missing = [k for k in need_s if not sinfo["paths"].get(k)] + [k for k in need_x if not xp.get(k)]
@@ -334,5 +352,5 @@ def check(ctx):
     ctx.assumptions = ["TLC 1.8.0 and CommunityModules are correct",
                        "driver projection is correct: byte equality with the reference slice, canonicalised reported paths, directory walks",
                        "seeks are issued only to targets inside [0, len]",
-                       "archives without aliasing/duplicate member names; file members end in a plain file name; zip format only",
+                       "archives without duplicate raw member names; for aliasing members any one alias' bytes are accepted; file members end in a plain file name; zip format only",
                        "glob semantics of the five pattern classes as specified in ExtractDefs.tla"]
